@@ -2,6 +2,8 @@
 // All comparisons are between different ways of *reading the same file*, so they are exact (the decoder is
 // deterministic); nothing here depends on the lossy write.
 #include "c13_lib.hpp"
+#include <fstream>
+#include <cstring>
 #include <boost/gil/extension/io/jpeg.hpp>
 
 namespace gil = boost::gil;
@@ -50,6 +52,33 @@ VH_GROUP(seeds)
             sv.subrects = (allrect && sz[0] * sz[1] <= 20) || (sz[0] <= 5 && sz[1] <= 4);
             ++ctx.witness["jpeg_gil_written_seeds"];
             run_typed<Img>(ctx, sv, o);
+            // a rarely used option value: with a non-default dct_method in the read settings the scanline reader's rows still equal read_image
+            // with the same settings (libjpeg chooses the IDCT routine when decompression starts, so the setting must be in place by then)
+            for (int dm = 0; dm < 2; ++dm)
+            {
+                const gil::jpeg_dct_method::type dct = dm == 0 ? gil::jpeg_dct_method::fast : gil::jpeg_dct_method::floating_pt;
+                const std::string id = nm + (dm == 0 ? "/dct=fast" : "/dct=float");
+                try
+                {
+                    gil::image_read_settings<gil::jpeg_tag> st; st._dct_method = dct;
+                    Img full; gil::read_image(file.path, full, st);
+                    using device_t = typename gil::get_read_device<std::istream, gil::jpeg_tag>::type;
+                    std::ifstream in(file.path.c_str(), std::ios::binary); std::istream& is = in;
+                    device_t dev(is);
+                    gil::scanline_reader<device_t, gil::jpeg_tag> reader(dev, st);
+                    const size_t rowb = size_t(full.width()) * gil::num_channels<Img>::value;
+                    long row = 0, bad = -1;
+                    for (auto it = reader.begin(); it != reader.end() && row < full.height(); ++it, ++row)
+                    {
+                        gil::byte_t* p = *it;
+                        if (size_t(reader._scanline_length) < rowb || std::memcmp(p, gil::interleaved_view_get_raw_data(gil::const_view(full)) + size_t(row) * size_t(gil::const_view(full).pixels().row_size()), rowb) != 0) { if (bad < 0) bad = row; }
+                    }
+                    ++ctx.evaluations; ++ctx.nontrivial; ++ctx.witness["jpeg_scanline_with_dct_setting"];
+                    if (bad >= 0) ctx.fail(id, "scanline!=full", std::string(vh::S() << "row " << bad << " of the scanline reader differs from read_image with the same settings"));
+                    if (row != full.height()) ctx.fail(id, "scanline!=full", std::string(vh::S() << row << " rows instead of " << full.height()));
+                }
+                catch (std::exception const& ex) { ctx.fail(id, "scanline-throws", ex.what()); }
+            }
             if (ctx.timed_out()) return;
         }
     });
